@@ -10,12 +10,13 @@
 
 mod common;
 mod eng_rid;
+mod eng_cell;
 
 use common::*;
 use std::{fs, io::Write, path::PathBuf};
 
 fn engines() -> Vec<Box<dyn Engine>> {
-    vec![Box::new(eng_rid::RidEngine::default())]
+    vec![Box::new(eng_rid::RidEngine::default()), Box::new(eng_cell::CellEngine::default())]
 }
 
 fn main() {
